@@ -34,6 +34,9 @@ type FS struct {
 	afero.Fs
 }
 
+// Unwrap returns the filesystem without virtual images and decryption on top.
+func (fsys *FS) Unwrap() afero.Fs { return fsys.Fs }
+
 func translatePath(path string) (string, fileType) {
 	switch {
 	case strings.HasPrefix(path, virtualISOMask+string(filepath.Separator)):
